@@ -292,6 +292,13 @@ class SR:
         o = SR.lift(o)
         if o is None:
             return NotImplemented
+        if o.n.is_zero():
+            # IEEE semantics of x/0 for code that divides first and masks the entries afterwards (e.g. the akima
+            # weights): the quotient is a float NaN/inf that poisons any obligation it reaches
+            if s.is_const():
+                c = s.const_value()
+                return float('nan') if c == 0 else (float('inf') if c > 0 else float('-inf'))
+            return float('nan')
         return s.__mul__(o._inv())
 
     def __rtruediv__(s, o):
@@ -454,6 +461,23 @@ class SR:
     def __copy__(s): return s
     def __deepcopy__(s, memo): return s
     def item(s): return s
+
+    # the slice of the NumPy scalar API that array code uses on elements taken out of an array
+    dtype = np.dtype(object)
+    shape = ()
+    ndim = 0
+    size = 1
+
+    def ravel(s):
+        a = np.empty(1, dtype=object)
+        a[0] = s
+        return a
+    flatten = ravel
+
+    def reshape(s, *shape):
+        return s.ravel().reshape(*shape)
+
+    def astype(s, dtype, *a, **k): return s
 
     # ---- calculus / evaluation
     def diff(s, vid):
